@@ -36,8 +36,9 @@ type Split struct {
 }
 
 // Splits returns the write splits of the C02 grid for a payload of length L, duplicates removed:
-// [L], [1,L-1], [L-1,1], [cut,rest] for every cut in cuts, three equal parts, [0,L,0], and 1-byte writes
-// when L <= oneByteMax.
+// [L], [1,L-1], [L-1,1], [cut,rest] for every cut in cuts, three equal parts, [0,L,0], three equal parts with
+// ZERO-LENGTH writes between them ([a,0,a,0,0,rest]: "every sequence of write sizes" contains empty writes,
+// at the start, at the end and between two non-empty writes), and 1-byte writes when L <= oneByteMax.
 func Splits(L int, cuts []int, oneByteMax int) []Split {
 	var out []Split
 	seen := map[string]bool{}
@@ -76,6 +77,10 @@ func Splits(L int, cuts []int, oneByteMax int) []Split {
 	if L >= 1 {
 		add("0+L+0", 0, L, 0)
 	}
+	if L >= 3 {
+		a := L / 3
+		add("thirds+0s", a, 0, a, 0, 0, L-2*a)
+	}
 	if L >= 2 && L <= oneByteMax {
 		s := make([]int, L)
 		for i := range s {
@@ -110,8 +115,11 @@ type Transfer struct {
 	Writes  []int
 	// DrainEach: read everything accepted so far after every Write (otherwise after the last Write).
 	DrainEach bool
-	// ReadSize chooses the buffer length of the next Read (values < 1 are raised to 1).
+	// ReadSize chooses the buffer length of the next non-empty Read (values < 1 are raised to 1).
 	ReadSize func(received, accepted int) int
+	// Zeros: cyclic pattern of zero-length Reads (Policy.Zeros): before the i-th non-empty Read,
+	// Zeros[i mod len(Zeros)] Reads with len(buf) == 0 are issued (they go through ReadOnce like any other).
+	Zeros []int
 	// Before / After are optional probes around every Read (white-box path classification).
 	Before func(r int)
 	After  func(r, n int, err error)
@@ -128,8 +136,36 @@ type Transfer struct {
 	Accepted      int
 	Reads         int
 	ZeroReads     int
+	EmptyReads    int  // Reads issued with len(buf) == 0
+	LastEmpty     bool // the last ReadOnce used an empty buffer
 	InputModified bool // a Write changed the slice it was given (io.Writer contract; reported, not judged)
 	wscratch      []byte
+	zeros         zeroSeq
+}
+
+// zeroSeq walks a cyclic pattern of zero-length reads: next() says whether the next Read has to be issued
+// with an empty buffer.
+type zeroSeq struct {
+	i     int // non-empty reads started so far
+	left  int // empty reads still to be issued before the next non-empty one
+	armed bool
+}
+
+func (z *zeroSeq) next(pattern []int) bool {
+	if len(pattern) == 0 {
+		return false
+	}
+	if !z.armed {
+		z.left = pattern[z.i%len(pattern)]
+		z.i++
+		z.armed = true
+	}
+	if z.left > 0 {
+		z.left--
+		return true
+	}
+	z.armed = false
+	return false
 }
 
 func (t *Transfer) fail(key, f string, a ...any) *Problem {
@@ -205,10 +241,13 @@ func (t *Transfer) Drain() *Problem {
 		if err != nil {
 			return t.fail("read-error-on-healthy-conn", "Read returned %v after %d of %d accepted bytes (n=%d)", err, t.Received, t.Accepted, n)
 		}
+		if t.LastEmpty {
+			continue // (0, nil) is what an empty buffer gets; it neither is nor resets "no progress"
+		}
 		if n == 0 {
 			zero++
 			if zero > t.MaxZeroReads {
-				return t.fail("reader-makes-no-progress", "%d consecutive (0, nil) reads at %d of %d accepted bytes", zero, t.Received, t.Accepted)
+				return t.fail("reader-makes-no-progress", "%d consecutive (0, nil) reads with a non-empty buffer at %d of %d accepted bytes", zero, t.Received, t.Accepted)
 			}
 		} else {
 			zero = 0
@@ -217,15 +256,21 @@ func (t *Transfer) Drain() *Problem {
 	return nil
 }
 
-// ReadOnce does one Read with the policy's buffer size and checks the bytes against the payload at the
-// current position. The returned error is the Read's own error (not judged here).
+// ReadOnce does one Read with the policy's buffer size (or with an empty buffer when the policy's pattern of
+// zero-length reads says so) and checks the bytes against the payload at the current position. The returned
+// error is the Read's own error (not judged here).
 func (t *Transfer) ReadOnce() (int, error, *Problem) {
 	r := 1
-	if t.ReadSize != nil {
-		r = t.ReadSize(t.Received, t.Accepted)
-	}
-	if r < 1 {
-		r = 1
+	if t.LastEmpty = t.zeros.next(t.Zeros); t.LastEmpty {
+		r = 0
+		t.EmptyReads++
+	} else {
+		if t.ReadSize != nil {
+			r = t.ReadSize(t.Received, t.Accepted)
+		}
+		if r < 1 {
+			r = 1
+		}
 	}
 	if len(t.Buf) < r {
 		t.Buf = make([]byte, r)
@@ -239,7 +284,7 @@ func (t *Transfer) ReadOnce() (int, error, *Problem) {
 		t.After(r, n, err)
 	}
 	t.Reads++
-	if n == 0 {
+	if n == 0 && r > 0 {
 		t.ZeroReads++
 	}
 	if n < 0 || n > r {
@@ -311,6 +356,7 @@ type Concurrent struct {
 	Payload  []byte
 	Writes   []int
 	ReadSize func(received int) int
+	Zeros    []int  // cyclic pattern of zero-length Reads, as in Transfer
 	Arm      func() // arms the reader's stall deadline (called once before reading)
 	AfterW   func() // called by the writer goroutine after its last write (e.g. CloseWrite)
 	Buf      []byte
@@ -354,13 +400,19 @@ func (c *Concurrent) Run() *Problem {
 		c.Arm()
 	}
 	zero := 0
+	var zs zeroSeq
 	for c.Received < len(c.Payload) {
 		r := 1
-		if c.ReadSize != nil {
-			r = c.ReadSize(c.Received)
-		}
-		if r < 1 {
-			r = 1
+		empty := zs.next(c.Zeros)
+		if empty {
+			r = 0
+		} else {
+			if c.ReadSize != nil {
+				r = c.ReadSize(c.Received)
+			}
+			if r < 1 {
+				r = 1
+			}
 		}
 		if len(c.Buf) < r {
 			c.Buf = make([]byte, r)
@@ -391,10 +443,13 @@ func (c *Concurrent) Run() *Problem {
 			}
 			break
 		}
+		if empty {
+			continue
+		}
 		if n == 0 {
 			zero++
 			if zero > 64 {
-				rp = &Problem{Key: "reader-makes-no-progress", Desc: fmt.Sprintf("%d consecutive (0, nil) reads at %d of %d bytes", zero, c.Received, len(c.Payload))}
+				rp = &Problem{Key: "reader-makes-no-progress", Desc: fmt.Sprintf("%d consecutive (0, nil) reads with a non-empty buffer at %d of %d bytes", zero, c.Received, len(c.Payload))}
 				break
 			}
 		} else {
